@@ -370,12 +370,130 @@ def prop_unary(n: int) -> bool:
 '''
 
 
+INT_GRAMMAR = (r"(0[xX][0-9a-fA-F]+|0[bB][01]+|0[0-7]*|[1-9][0-9]*)"
+               r"([uU](l|L|ll|LL)?|(l|L|ll|LL)[uU]?)?\Z")
+SIMPLE_ESC = {'n': 10, 't': 9, 'r': 13, '0': 0, '\\': 92, "'": 39, '"': 34, 'a': 7, 'b': 8, 'f': 12, 'v': 11, '?': 63}
+
+
 def literal_cases(chk):
-    return []
+    N = 4 if chk.tier == 'quick' else 7
+    cases = [(chk.prop, chk.tier, 'int', n) for n in range(1, N + 1)]
+    cases += [(chk.prop, chk.tier, 'char', 3), (chk.prop, chk.tier, 'char', 4)]
+    return cases
 
 
 def lit_worker(args):
-    raise NotImplementedError
+    """Constant.value = every ASCII string of length n that is a C integer / character constant."""
+    import re
+    from vf import symstr
+    prop, tier, kind, n = args
+    sys.path.insert(0, os.path.join(common.REPO, 'src'))
+    chk = hutil.sub_check(prop, tier)
+    from cffi import cparser
+    from pycparser import c_ast
+    cparser.int = symstr.sym_int          # module-level names shadow the builtins for the proxies
+    cparser.ord = symstr.sym_ord
+    ex = pysym.PyExplorer()
+    grammar = symstr.SymRegex(re.compile(INT_GRAMMAR))
+    label = 'literal-%s-len%d' % (kind, n)
+
+    def reference(s):
+        body = s.rstrip('uUlL')
+        if body.startswith(('0x', '0X')):
+            return symstr.sym_int(body[2:], 16)
+        if body.startswith(('0b', '0B')):
+            return symstr.sym_int(body[2:], 2)
+        if body.startswith('0'):
+            return symstr.sym_int(body, 8)
+        return symstr.sym_int(body, 10)
+
+    def h(ex):
+        s = symstr.SymStr.fresh(ex, 's', n)
+        if kind == 'int':
+            if grammar.match(s) is None:
+                raise llsym.PathEnd()
+            want = reference(s)
+        else:
+            q = 39
+            ex.assume(z3.And(s.chars[0] == q, s.chars[-1] == q))
+            if n == 3:
+                ex.assume(z3.And(s.chars[1] != q, s.chars[1] != 92, s.chars[1] != 10))
+                want = pysym.SymInt(ex, z3.BV2Int(s.chars[1]), 'int')
+            else:
+                ex.assume(s.chars[1] == 92)
+                want = None
+                for ch, val in SIMPLE_ESC.items():
+                    if ex.decide(s.chars[2] == ord(ch)):
+                        want = val
+                        break
+                if want is None:
+                    raise llsym.PathEnd()       # not a simple escape: outside the claim
+        parser = cparser.Parser()
+        m0 = ex.model()
+        text = s.concrete(m0) if m0 is not None else '?'
+        try:
+            got = parser._parse_constant(c_ast.Constant('int', s))
+        except (llsym.PathEnd, llsym.Unsupported, llsym.UnwindBound):
+            raise
+        except Exception as e:
+            hutil.witness(chk, ex, '%s:raises-%s' % (label, type(e).__name__))
+            chk.query('%s:valid-literal-accepted' % label, 'sat', 0.0, detail=text)
+            ok, script = lit_replay(chk, text)
+            chk.report_failure('%s: valid C constant %r raises %s' % (label, text, type(e).__name__), {}, script, ok)
+            return
+        gt = got.t if isinstance(got, pysym.SymInt) else z3.IntVal(got)
+        wt = want.t if isinstance(want, pysym.SymInt) else z3.IntVal(want)
+        mw = hutil.witness(chk, ex, label + ':' + text[:2].lower().rstrip('0123456789'))
+        if mw is not None:
+            chk.sample({'literal': s.concrete(mw)})
+        import time
+        t0 = time.time()
+        mm = ex.sat(gt != wt)
+        if mm is None:
+            chk.query(label + ':value==C', 'unsat', time.time() - t0)
+        else:
+            bad = s.concrete(mm)
+            chk.query(label + ':value==C', 'sat', time.time() - t0, detail=bad)
+            ok, script = lit_replay(chk, bad)
+            chk.report_failure('%s: constant %r evaluates to %s, C value is %s' % (
+                label, bad, mm.eval(gt, model_completion=True), mm.eval(wt, model_completion=True)), {}, script, ok)
+
+    res = ex.explore(h, max_paths=200000)
+    hutil.finish_explore(chk, ex, res, label)
+    return hutil.export(chk)
+
+
+LIT_REPLAY = r'''
+# Replay for C09 (literal text): cffi's value of the constant vs the C compiler's.
+import sys, json, subprocess, tempfile, os
+import cffi
+text = json.loads(%r)
+ffi = cffi.FFI()
+try:
+    ffi.cdef('enum e { A = %%s };' %% text)
+    got = ('ok', int(ffi.cast('enum e', 0) == 0) and ffi.typeof('enum e').relements['A'])
+except Exception as e:
+    got = ('exc', type(e).__name__)
+d = tempfile.mkdtemp()
+src = os.path.join(d, 't.c')
+open(src, 'w').write('#include <stdio.h>\nint main(void){ printf("%%%%lld\\n", (long long)(%%s)); return 0; }\n' %% text)
+r = subprocess.run(['gcc', '-w', '-o', os.path.join(d, 't'), src], capture_output=True)
+want = None
+if r.returncode == 0:
+    want = int(subprocess.run([os.path.join(d, 't')], capture_output=True).stdout.decode().strip())
+bad = want is not None and got != ('ok', want)
+print('VIOLATED:' if bad else 'agree:', repr(text), 'cffi:', got, ' gcc:', want)
+sys.exit(1 if bad else 0)
+'''
+
+
+def lit_replay(chk, text):
+    if any(ord(c) < 32 or ord(c) > 126 for c in text):
+        return None, None
+    body = LIT_REPLAY % json.dumps(text)
+    path = chk.write_replay('lit-' + ''.join(c if c.isalnum() else '_' for c in text)[:30], body)
+    rc, out = common.run_replay(path, timeout=120)
+    return common.replay_verdict(rc, out), path
 
 
 def run(chk):
@@ -408,7 +526,7 @@ def run(chk):
     chk.bounds = {'expression shapes': 'all 10 binary operators and unary +/- at depth 1; %d depth-2 shapes' % (len(shapes) - 12),
                   'leaves': 'any integers representable as long long (symbolic, unbounded Int / 160-bit vectors)',
                   'shift counts': '0..63 where C defines the result',
-                  'literal text': 'digit strings <= %d characters + every u/l suffix spelling; character constants' % (3 if quick else 5)}
+                  'literal text': 'every ASCII string of <= %d characters in the C integer-constant grammar; character constants with a plain character or a simple escape' % (4 if quick else 7)}
     chk.outside = ['unsigned-suffixed operands (C arithmetic becomes modular): leaves are typed as long long',
                    'literals longer than the bound; multi-character and non-simple escapes in character constants',
                    'expressions deeper than 2 (each node is evaluated independently: covered by induction on depth-1)']
